@@ -49,6 +49,9 @@ func glob(path string, suffix string) ([]string, error) {
 		}
 
 		for _, f := range listing {
+			if f.IsDir() {
+				continue
+			}
 			files = append(files, filepath.Join(path, f.Name()))
 		}
 	} else {
